@@ -278,8 +278,9 @@ class CoordinateComponent(Component):
 
             # Some views, e.g. with lists of integer arrays, can give arbitrarily
             # complex (copied) subsets of arrays, so in this case we don't do any
-            # optimization
-            if view is Ellipsis:
+            # optimization. A single array (e.g. a boolean mask or an array of
+            # indices for 1D data) is not a sequence of per-axis views.
+            if view is Ellipsis or isinstance(view, np.ndarray):
                 optimize_view = False
             else:
                 for v in view:
